@@ -207,7 +207,7 @@ theorem pushScalar_interp (ext : Ext) : ∀ (b : B) (x : SVal) (b' : B) (dt : Da
     · cases h
       have := row_unique hd (null_step p len 1)
       subst this
-      exact ⟨by simp [interpScalar], h2⟩
+      exact ⟨by simp [interpScalar_eq_old, normErr_ok_iff, interpScalarOld], h2⟩
     · simp [notSupported, fail] at h
   | .unknownVariant p, x, b', _, _, _, _, _, _, h, _, _ => by simp [pushScalar, fail] at h
   | .leaf p k v vals, x, b', dt, n, md, lv, hwf, hs, h, hd, _ => by
@@ -244,7 +244,7 @@ theorem pushScalar_interp (ext : Ext) : ∀ (b : B) (x : SVal) (b' : B) (dt : Da
     have := row_unique hd g2
     subst this
     cases ty <;> simp only [isUtf8Ty, if_true, Bool.false_eq_true, if_false] at hval <;>
-      simp only [bytesDT, interpScalar, bytesVal, isUtf8Ty, isUnknownVariant, and_true] <;>
+      simp only [bytesDT, interpScalar_eq_old, normErr_ok_iff, interpScalarOld, bytesVal, isUtf8Ty, isUnknownVariant, and_true] <;>
       (split at hval <;> first | (cases hval; simp_all) | simp [notSupported, fail] at hval)
   | .bytesView p ty v views buf, x, b', dt, n, md, lv, hwf, hs, h, hd, hsm => by
     simp only [Shape] at hs
@@ -262,13 +262,13 @@ theorem pushScalar_interp (ext : Ext) : ∀ (b : B) (x : SVal) (b' : B) (dt : Da
     cases ty
     · have e : (ViewTy.utf8View == ViewTy.utf8View) = true := by decide
       rw [if_pos e] at hval
-      simp only [viewDT, interpScalar, bytesVal, isUnknownVariant, and_true, e, if_true]
+      simp only [viewDT, interpScalar_eq_old, normErr_ok_iff, interpScalarOld, bytesVal, isUnknownVariant, and_true, e, if_true]
       split at hval
       · rename_i heq; cases hval; rw [heq]
       · simp [notSupported, fail] at hval
     · have e : (ViewTy.binaryView == ViewTy.utf8View) = false := by decide
       rw [if_neg (by rw [e]; decide)] at hval
-      simp only [viewDT, interpScalar, bytesVal, isUnknownVariant, and_true, e, Bool.false_eq_true, if_false]
+      simp only [viewDT, interpScalar_eq_old, normErr_ok_iff, interpScalarOld, bytesVal, isUnknownVariant, and_true, e, Bool.false_eq_true, if_false]
       split at hval
       · cases hval; rfl
       · simp [notSupported, fail] at hval
@@ -289,14 +289,14 @@ theorem pushScalar_interp (ext : Ext) : ∀ (b : B) (x : SVal) (b' : B) (dt : Da
         rw [rowOf_true] at g2
         have := row_unique hd g2
         subst this
-        simp [interpScalar, hn', isUnknownVariant]
+        simp [interpScalar_eq_old, normErr_ok_iff, interpScalarOld, hn', isUnknownVariant]
     · simp [notSupported, fail] at h
   | .dictionary p idx vals index, x, b', dt, n, md, lv, hwf, hs, h, hd, _ => by
     simp only [Shape] at hs
     obtain ⟨⟨kdt, vdt, rfl, hsv⟩, hil, _, hu⟩ := hs
     rcases hu with hu | hr
     · obtain ⟨s, hs', rfl⟩ := dict_push_row ext hwf hil hu h hd
-      exact ⟨by simp only [interpScalar, hs', interpDictStr_utf8 ext s hsv hu], rfl⟩
+      exact ⟨by simp only [interpScalar_eq_old, normErr_ok_iff, interpScalarOld, hs', interpDictStr_utf8 ext s hsv hu], rfl⟩
     · exact (dict_push_refused ext (DictVals.of_wf hwf).2 hr h).elim
   | .list _ _ _ _ _ _, x, b', _, _, _, _, _, _, h, _, _ => by simp [pushScalar, notSupported, fail] at h
   | .fixedSizeList _ _ _ _ _ _ _, x, b', _, _, _, _, _, _, h, _, _ => by simp [pushScalar, notSupported, fail] at h
